@@ -19,7 +19,7 @@ TASK: produce changes to MetalLB's non-test source code that BREAK this property
 
 For each change provide a demonstration: a Go test file (in the relevant package of the worktree) or small program that FAILS with the change applied and PASSES on the unmodified worktree. 
 
-Procedure per change k = 1,2,3: edit the source in the worktree; run the existing tests of every package that could be affected AND their dependents (at least `go test -vet=off -count=1 ./internal/... ./controller/... ./speaker/... ./api/...` from {wt}; the package internal/bgp/frr needs Docker for some tests: those that already fail/skip on the unmodified tree do not count) and confirm they still pass; write the demonstration test and confirm it fails with the change and passes without (`git stash` / re-apply); then save under {wt}/_out/{{k}}/: `patch.diff` (output of `git diff` for the source change only, NOT including the demo), the demo file(s), and `notes.md` (which clause of the statement it breaks, what it needs in order to manifest, exact commands you ran and their results). Then `git checkout -- .` (keep _out and untracked demo copies out of the source tree) before starting the next change.
+Procedure per change k = 1,2,3: edit the source in the worktree; run the existing tests of every package that could be affected AND their dependents (at least `go test -vet=off -count=1 ./internal/... ./controller/... ./speaker/... ./api/...` from {wt}; the package internal/bgp/frr needs Docker for some tests: those that already fail/skip on the unmodified tree do not count) and confirm they still pass; write the demonstration test and confirm it fails with the change and passes without (save your change with `git diff > /tmp/<your own name>.diff`, `git checkout -- .`, and re-apply with `git apply`; NEVER use `git stash`: the stash is shared by every worktree of this repository and other people work in sibling worktrees); then save under {wt}/_out/{{k}}/: `patch.diff` (output of `git diff` for the source change only, NOT including the demo), the demo file(s), and `notes.md` (which clause of the statement it breaks, what it needs in order to manifest, exact commands you ran and their results). Then `git checkout -- .` (keep _out and untracked demo copies out of the source tree) before starting the next change.
 
 Environment: no network. Use `export GOFLAGS=-mod=mod GOPROXY=off` and do NOT set GOSUMDB or GOTOOLCHAIN (both break the build here). The default `go` works from inside the worktree. Keep it efficient: read the code the property is about, pick subtle spots, do not rewrite large pieces.
 
